@@ -2,6 +2,7 @@ package config
 
 import (
 	"fmt"
+	"net"
 	"os"
 	"path"
 	"strings"
@@ -433,6 +434,23 @@ func (c *Config) validateAdminAPI() error {
 	if c.AdminAPI.Enabled {
 		if c.AdminAPI.Port <= 0 || c.AdminAPI.Port > 65535 {
 			return fmt.Errorf("admin API port must be between 1 and 65535 (got %d)", c.AdminAPI.Port)
+		}
+		// A malformed entry would otherwise only show once the Admin API is up and refuses everyone
+		if err := validateIPList("ip_allow_list", c.AdminAPI.IPAllowList); err != nil {
+			return err
+		}
+		if err := validateIPList("ip_deny_list", c.AdminAPI.IPDenyList); err != nil {
+			return err
+		}
+	}
+	return nil
+}
+
+// validateIPList checks that every entry is an IP address or a network in CIDR notation
+func validateIPList(name string, entries []string) error {
+	for _, entry := range entries {
+		if _, _, err := net.ParseCIDR(entry); err != nil && net.ParseIP(entry) == nil {
+			return fmt.Errorf("admin API %s: %q is neither an IP address nor a CIDR network", name, entry)
 		}
 	}
 	return nil
